@@ -24,35 +24,35 @@ def models(ctx, g, thorough):
         for diff in DIFFS_VIEW:
             if pairing == "SS" and diff in ("idB", "swap", "join"):
                 continue
-            ctx.mc("MC_Tamper", cfg(spec="TamperSpec", constants=consts_for(g, pairing, diff, allw, "none"),
+            ctx.mc("MC_Tamper", cfg(view="ViewNoLast", spec="TamperSpec", constants=consts_for(g, pairing, diff, allw, "none"),
                                     invariants=["NoAgreementUnlessSameView"]),
                    label="MC_Tamper[%s,%s,diff=%s,all w,x,y]" % (g, pairing, diff))
         # (b) parameter differences: no agreement except finding F8, which TLC must exhibit
         for diff in DIFFS_PARAM[pairing]:
             c = consts_for(g, pairing, diff, allw, "none")
-            ctx.mc("MC_Tamper", cfg(spec="TamperSpec", constants=c, invariants=["NoAgreementButF8"]),
+            ctx.mc("MC_Tamper", cfg(view="ViewNoLast", spec="TamperSpec", constants=c, invariants=["NoAgreementButF8"]),
                    label="MC_Tamper[%s,%s,diff=%s,all w,x,y]" % (g, pairing, diff))
-            res = ctx.mc("MC_Tamper", cfg(spec="TamperSpec", constants=c, invariants=["NoAgreementUnlessSameView"]),
+            res = ctx.mc("MC_Tamper", cfg(view="ViewNoLast", spec="TamperSpec", constants=c, invariants=["NoAgreementUnlessSameView"]),
                          label="MC_Tamper[%s,%s,diff=%s] strict (F8 expected)" % (g, pairing, diff),
                          expect_violation="NoAgreementUnlessSameView")
             f8 = f8 or bool(res["violated"])
         # (c) tampering: every string to one end; structured pairs to both ends
         c = consts_for(g, pairing, "none", allw if thorough else [1], "one")
         if thorough or pairing == "AB" or ctx.seed % 2:
-          ctx.mc("MC_Tamper", cfg(spec="TamperSpec", constants=c, invariants=["NoAgreementUnlessSameView", "KeyOnlyFromCanonical"]),
+          ctx.mc("MC_Tamper", cfg(view="ViewNoLast", spec="TamperSpec", constants=c, invariants=["NoAgreementUnlessSameView", "KeyOnlyFromCanonical"]),
                label="MC_Tamper[%s,%s,one-sided: every string of the universe]" % (g, pairing), timeout=7200)
         c = consts_for(g, pairing, "none", allw, "two")
         if pairing == "AB":
-            ctx.mc("MC_Tamper", cfg(spec="TamperSpec", constants=c, invariants=["NoAgreementUnlessSameView", "KeyOnlyFromCanonical"]),
+            ctx.mc("MC_Tamper", cfg(view="ViewNoLast", spec="TamperSpec", constants=c, invariants=["NoAgreementUnlessSameView", "KeyOnlyFromCanonical"]),
                    label="MC_Tamper[%s,%s,two-sided structured]" % (g, pairing))
         else:   # Symmetric: holds except for finding F9 (both ends sent the same element), which TLC must exhibit
-            ctx.mc("MC_Tamper", cfg(spec="TamperSpec", constants=c, invariants=["NoAgreementButF9", "KeyOnlyFromCanonical"]),
+            ctx.mc("MC_Tamper", cfg(view="ViewNoLast", spec="TamperSpec", constants=c, invariants=["NoAgreementButF9", "KeyOnlyFromCanonical"]),
                    label="MC_Tamper[%s,%s,two-sided structured]" % (g, pairing))
-            ctx.mc("MC_Tamper", cfg(spec="TamperSpec", constants=c, invariants=["NoAgreementUnlessSameView"]),
+            ctx.mc("MC_Tamper", cfg(view="ViewNoLast", spec="TamperSpec", constants=c, invariants=["NoAgreementUnlessSameView"]),
                    label="MC_Tamper[%s,%s,two-sided] strict (F9 expected)" % (g, pairing), expect_violation="NoAgreementUnlessSameView")
         if g == "i11":
             ws = ["NoWitnessAgreementSameView", "NoWitnessKeyFromTampered"]
-            ctx.witness("MC_Tamper", cfg(spec="TamperSpec", constants=c, invariants=ws), ws, label="MC_Tamper[%s,%s,two-sided]" % (g, pairing))
+            ctx.witness("MC_Tamper", cfg(view="ViewNoLast", spec="TamperSpec", constants=c, invariants=ws), ws, label="MC_Tamper[%s,%s,two-sided]" % (g, pairing))
     return f8
 
 
